@@ -207,13 +207,14 @@ def load_hints():
 
 class SerialOb:
     """picklable obligation: SMT-LIB2 text instead of z3 ASTs (crosses process boundaries)"""
-    __slots__ = ("name", "kind", "func", "line", "note", "smt2", "smt2_qf", "slices", "coi")
+    __slots__ = ("name", "kind", "func", "line", "note", "smt2", "smt2_qf", "slices", "coi", "trivial")
 
     def __init__(self, name, kind, func, line, note, smt2, smt2_qf=None, slices=(), coi=None):
         self.name, self.kind, self.func, self.line, self.note = name, kind, func, line, note
         self.smt2, self.smt2_qf = smt2, smt2_qf
         self.slices = list(slices)      # sub-sets of the hypotheses (unsat there is a proof), tried before the full query
         self.coi = coi                  # cone-of-influence sub-set (see _coi_pick)
+        self.trivial = False            # the goal is literally one of the hypotheses
 
 
 _INFO_CACHE = {}
@@ -312,6 +313,11 @@ def _array_symbols(e):
 def serialize(ob):
     if isinstance(ob, SerialOb):
         return ob
+    gid = ob.goal.get_id()
+    if any(h.get_id() == gid for h in ob.hyps):
+        so = SerialOb(ob.name, ob.kind, ob.func, ob.line, ob.note, "")
+        so.trivial = True
+        return so
     full = to_smt2(ob.hyps, ob.goal)
     import hashlib
     if _cache_has(hashlib.sha256(full.encode()).hexdigest()):
@@ -587,6 +593,9 @@ def discharge(obligations, timeout_ms=20000, tactic=None, retry_ms=None, use_cvc
     hints = load_hints()
     keys = [_cache_key(ob) for ob in obligations]
     for ob, key in zip(obligations, keys):
+        if getattr(ob, "trivial", False):
+            futs.append("trivial")
+            continue
         if _cache_has(key):
             futs.append(None)
             continue
@@ -594,6 +603,9 @@ def discharge(obligations, timeout_ms=20000, tactic=None, retry_ms=None, use_cvc
         futs.append(ex.submit(_pipeline, ob, timeout_ms, tac, retry_ms, use_cvc5, hints.get(hint_key(ob))))
     results = []
     for ob, fu, key in zip(obligations, futs, keys):
+        if fu == "trivial":
+            results.append(Result(ob.name, "proved", "syntactic (the goal is one of the hypotheses)", 0.0, None, "", ob, ""))
+            continue
         if fu is None:
             results.append(Result(ob.name, "proved", "z3 (memoised identical query)", 0.0, None, "", ob, ""))
             continue
